@@ -17,7 +17,7 @@ LEVEL = "exploration"
 RULE = ("a case is one subprocess with an affinity mask in {1,2,5,16 CPUs} (in one case out of eight observed from a non-main thread that narrowed its own mask to 1-3 CPUs) x LOKY_MAX_CPU_COUNT in {unset,0,1,3,64} x backend in "
         "{loky, threading, multiprocessing, default}: cpu_count() and effective_n_jobs(n) for every n in [-2*cpus, 2*cpus] are "
         "compared with an independent re-derivation, Parallel(n_jobs=0) must raise ValueError, several n_jobs values are run "
-        "for real (3*resolved+2 tasks of 20-60 ms) and nesting shapes of depth 3 are executed; distinct_nontrivial counts "
+        "for real (3*resolved+2 tasks of 20-60 ms) and nesting shapes of depth 3 are executed (the first-level call being a default call, or one with prefer='threads' / require='sharedmem', alone or inside a parallel_config(backend=loky|multiprocessing|threading) block); distinct_nontrivial counts "
         "distinct (mask, env, backend, n_jobs) runs whose tasks really overlapped (high-water mark >= 2) or whose n_jobs resolves to 1")
 ASSUMPTIONS = [
     "time.monotonic() is CLOCK_MONOTONIC, comparable across processes; timestamps are taken inside the tasks",
@@ -26,8 +26,8 @@ ASSUMPTIONS = [
     "fan-out is limited so that the machine is not saturated",
 ]
 SHARDS = {"quick": 5, "thorough": 6}
-FLOORS = {"quick": {"cases_observed_from_a_thread_with_its_own_affinity_mask": 3, "arith_observations": 400, "real_runs": 120, "runs_with_overlap": 50, "nested_runs": 12},
-          "thorough": {"cases_observed_from_a_thread_with_its_own_affinity_mask": 30, "arith_observations": 4000, "real_runs": 800, "runs_with_overlap": 400, "nested_runs": 100}}
+FLOORS = {"quick": {"cases_observed_from_a_thread_with_its_own_affinity_mask": 3, "arith_observations": 400, "real_runs": 120, "runs_with_overlap": 50, "nested_runs": 12, "nested_runs_with_hints_or_contexts_at_the_first_level": 8},
+          "thorough": {"cases_observed_from_a_thread_with_its_own_affinity_mask": 30, "arith_observations": 4000, "real_runs": 800, "runs_with_overlap": 400, "nested_runs": 100, "nested_runs_with_hints_or_contexts_at_the_first_level": 60}}
 CHILD = os.path.join(harness.VERIF, "checks", "c15_child.py")
 
 
@@ -50,7 +50,11 @@ def cases(tier, seed):
         rng_run = [x for x in rng_run if abs(x) <= 10]
         nest = None
         if i % 2 == 0:
-            nest = dict(depth=3, outer_n=rng2.choice([2, 3]), inner_n=2)
+            # the call made at the first nesting level: default, or with hints / constraints / inside a context block that
+            # still resolve to threads; the third level is always a default call and must run in its parent's thread
+            nest = dict(depth=3, outer_n=rng2.choice([2, 3]), inner_n=2,
+                        mid_style=["default", "require-sharedmem", "ctx-loky+require-sharedmem", "prefer-threads", "ctx-threading", "ctx-multiprocessing+require-sharedmem",
+                                   "ctx-loky+prefer-threads"][(i // 2) % 7])
         yield dict(i=i, mask=m, thread_mask=tm, loky_max=e, backend=b, n_jobs_arith=list(range(-2 * cpus - 1, 2 * cpus + 2)),
                    n_jobs_run=rng_run, nest=nest)
 
@@ -118,6 +122,8 @@ def run_case(case, ctx):
             ctx.maxi("max_high_water", hw)
         if o["nest"]:
             ctx.count("nested_runs")
+            if o["nest"]["cfg"].get("mid_style", "default") != "default":
+                ctx.count("nested_runs_with_hints_or_contexts_at_the_first_level")
             rows = o["nest"]["rows"]
             lvl0 = {r[1] for r in rows if r[0] == 0}
             allp = {r[1] for r in rows}
